@@ -41,4 +41,7 @@ def run(ctx):
 def search(ctx):
     c2 = Ctx(ctx.pid, 'quick', ctx.seed + 1, random.Random(ctx.seed + 99), ctx.drivers, True); c2.n = lambda q, t: 2560 if q > 10 else q
     return [v for v in run(c2)['violations'] if v[1]]
-def replay(ctx, rp): return mser_replay(ctx, rp, ['tag', 'visit', 'text'])
+def replay(ctx, rp):
+    # hand-written tags: the model's visit of the same (tag, bytes) is the expected value (it agrees with the generator's on the unchanged tree)
+    if rp.get('case', '').startswith('visit '): return runner.generic_replay(ctx, dict(rp, kind='corr'))
+    return mser_replay(ctx, rp, ['tag', 'visit', 'text'])
